@@ -21,16 +21,22 @@ Lemma colon_colon_roundtrips :
   parse_expr 100 (print_expr w_cc ++ [TNewline]) = POk (w_cc, [TNewline]).
 Proof. repeat split; reflexivity. Qed.
 
-(* still open (fmt-closure): (x) => x is printed `(x: _) => x`, which does not parse; the source spelling does *)
-Definition w_closure : expr := EClosure [5%N] (EIdent 5%N).
-Lemma closure_refuted :
-  parse_expr 100 [TPu PLParen; TId 5%N; TPu PRParen; TPu PFatArrow; TId 5%N] = POk (w_closure, []) /\
-  parse_expr 100 (print_expr w_closure) = PErr.
-Proof. split; reflexivity. Qed.
+(* repaired (fmt-closure): (x, y) => x is printed with bare parameter names and parses back *)
+Definition w_closure : expr := EClosure [5%N; 6%N] (EBinary (EIdent 5%N) Add (EIdent 6%N)).
+Lemma closure_fixed :
+  print_expr w_closure = [TPu PLParen; TId 5%N; TPu PComma; TId 6%N; TPu PRParen; TPu PFatArrow; TId 5%N; TOp OPlus; TId 6%N] /\
+  parse_expr 100 (print_expr w_closure) = POk (w_closure, []) /\
+  parse_expr 100 (print_expr (EClosure [] (EIdent 5%N))) = POk (EClosure [] (EIdent 5%N), []).
+Proof. repeat split; reflexivity. Qed.
 
-(* still open (fmt-if-expr): the bodies never reach the output, so no parser can recover them *)
-Lemma if_expr_refuted : forall c t1 e1 t2 e2, print_if_expr c t1 e1 = print_if_expr c t2 e2.
-Proof. reflexivity. Qed.
+(* repaired (fmt-if-expr): both bodies reach the output *)
+Lemma if_expr_fixed :
+  print_if_expr (EIdent 1%N) [SExpr (ELit (LInt 1))] (Some [SExpr (ELit (LInt 2))]) <>
+  print_if_expr (EIdent 1%N) [SExpr (ELit (LInt 1))] (Some [SExpr (ELit (LInt 3))]) /\
+  print_if_expr (EIdent 1%N) [SExpr (ELit (LInt 1))] None <> print_if_expr (EIdent 1%N) [SExpr (ELit (LInt 2))] None /\
+  print_if_expr (EIdent 1%N) [SPass] None =
+    [TKw KIf; TId 1%N; TPu PColon; TNewline; TOther 5; TKw KPass; TNewline; TOther 6].
+Proof. repeat split; try reflexivity; intros H; discriminate H. Qed.
 
 (* repaired (fmt-mut-param, fmt-type-params, fmt-tuple-type, fmt-unit-type): the arms are injective again on
    the information they used to drop *)
